@@ -43,7 +43,7 @@ func statChanges(before, after run.Snapshot, paths []string) []mon.Problem {
 func c02(args []string) {
 	c := chk.New("C02", "exploration", args)
 	c.Build(false)
-	c.Rule("[interrupted runs] the run is killed inside a task's finalization (hook points after a declared output was renamed, temp directory still there) and re-run in place without cleanup: outputs already at their final paths keep inode/mtime/bytes and no command of their tasks runs; [links and pass-through] histories: complete run, an intermediate output that has a consumer is moved away and linked back (relative and absolute link), run again twice: no command runs, no file appears, every entry keeps inode/mtime/bytes; a process whose out-port path is its input path ({i:in}), file there before the first run: its command never runs and the file is never touched. generated non-streaming graphs of command / Go-function processes and sources; for each graph subsets of its tasks (all subsets when <= 5 tasks, else random ones) get all their outputs pre-placed (bytes of an earlier complete run incl. audit files / arbitrary user bytes / empty files), and the history 'complete run, run again in place' (also: 4-16 independent chains that end in the sink and fan into one merging process, also a process whose out-port is declared through SetOut only; chains / two-output tasks / diamonds with outputs in nested, parent-relative and absolute directories, re-run completely and after deleting the last process's outputs; 4-16 independent chains re-run 25-60 times in place as separate processes and 60-150 times inside one process, so that every process finishes at the same moment); oracle = no start event of a skipped task, (inode, size, mtime_ns, sha256) of every pre-existing output unchanged, downstream tasks executed exactly once on the pre-existing bytes (reference evaluation), re-run executes nothing. distinct_nontrivial = distinct (graph shape, subset, content kind) with >= 1 skipped and >= 1 executed task, plus re-run histories")
+	c.Rule("[gathered files] a task with a joined in-port whose output exists while parts of it are computed in the same run (file placed by the user; one part deleted after a complete run): not executed, file untouched; [interrupted runs] the run is killed inside a task's finalization (hook points after a declared output was renamed, temp directory still there) and re-run in place without cleanup: outputs already at their final paths keep inode/mtime/bytes and no command of their tasks runs; [links and pass-through] histories: complete run, an intermediate output that has a consumer is moved away and linked back (relative and absolute link), run again twice: no command runs, no file appears, every entry keeps inode/mtime/bytes; a process whose out-port path is its input path ({i:in}), file there before the first run: its command never runs and the file is never touched. generated non-streaming graphs of command / Go-function processes and sources; for each graph subsets of its tasks (all subsets when <= 5 tasks, else random ones) get all their outputs pre-placed (bytes of an earlier complete run incl. audit files / arbitrary user bytes / empty files), and the history 'complete run, run again in place' (also: 4-16 independent chains that end in the sink and fan into one merging process, also a process whose out-port is declared through SetOut only; chains / two-output tasks / diamonds with outputs in nested, parent-relative and absolute directories, re-run completely and after deleting the last process's outputs; 4-16 independent chains re-run 25-60 times in place as separate processes and 60-150 times inside one process, so that every process finishes at the same moment); oracle = no start event of a skipped task, (inode, size, mtime_ns, sha256) of every pre-existing output unchanged, downstream tasks executed exactly once on the pre-existing bytes (reference evaluation), re-run executes nothing. distinct_nontrivial = distinct (graph shape, subset, content kind) with >= 1 skipped and >= 1 executed task, plus re-run histories")
 	c.Assume("subsets are subsets of tasks (all outputs of a task present), as the property quantifies; partial presence is C03's subject", ".audit.json files, log/ and atime are not judged")
 	rng := c.Rand("c02")
 	ngraphs := c.Pick(14, 120)
@@ -64,7 +64,7 @@ func c02(args []string) {
 		b := []int{1, 2, 3, 5}[rng.Intn(4)]
 		mt := []int{1, 2, 4, 8}[rng.Intn(4)]
 		o := gen.GraphOpts{MaxProcs: 5, Lens: []int{1, 2, 3, b + 1}, Buf: b, FanIn: true, Params: true, GoFunc: true, MultiOut: true, Portless: true, SubDirs: true,
-			Cores: mt, MaxTasks: mt, SleepMax: 30, NoUnequal: true, DirOut: true}
+			Cores: mt, MaxTasks: mt, SleepMax: 30, NoUnequal: true, DirOut: g%2 == 0, Join: g%2 == 1}
 		s := gen.Graph(rng, fmt.Sprintf("g%d", g), o)
 		exp0 := evalRef(s, nil)
 		if exp0.Err != "" || len(exp0.Tasks) == 0 {
@@ -333,6 +333,7 @@ func c02(args []string) {
 	c02setOutOnly(c)
 	c02linksAndPassThrough(c)
 	c02interrupted(c)
+	c02joined(c)
 	c.Finish()
 }
 
@@ -849,5 +850,82 @@ func c02interrupted(c *chk.Ctx) {
 		c.Count("outputs_stat_compared", len(outs))
 		c.Count("interrupted_histories", 1)
 		c.Nontrivial(fmt.Sprintf("interrupted|%s|%v|%s#%d", j.kind, j.gof, j.cp.Point, j.cp.N))
+	})
+}
+
+// c02joined: a gathering task ({i:x|join:SEP} behind StreamToSubStream) whose output is on disk while (some of) its
+// parts are not: the parts are (re)computed - and are then newer than the gathered file -, the gathering task is not
+// executed and its file keeps inode, mtime and bytes. Histories: the gathered file placed by the user before the first
+// run; complete run, one part deleted, run again.
+func c02joined(c *chk.Ctx) {
+	run.Parallel(c.Pick(4, 12), func(i int) {
+		root := c.CaseDir()
+		defer c.Drop(root)
+		in, o1 := []spec.PortDecl{{Name: "in"}}, []spec.PortDecl{{Name: "out"}}
+		s := &spec.Spec{Name: "joinedexisting", MaxTasks: 3, Sources: map[string]string{"j0.txt": "j0\n", "j1.txt": "j1\n", "j2.txt": "j2\n"}}
+		s.Procs = append(s.Procs, &spec.Proc{Name: "src", Kind: spec.KFileSource, Files: []string{"j0.txt", "j1.txt", "j2.txt"}},
+			&spec.Proc{Name: "U", Kind: spec.KCmd, Cmd: spec.BuildCmd("U", in, o1, nil, nil, nil), Outs: []*spec.Out{{Port: "out", Pattern: "parts/{i:in|basename}.U.out"}}},
+			&spec.Proc{Name: "SS", Kind: spec.KSubStream},
+			&spec.Proc{Name: "JN", Kind: []string{spec.KCmd, spec.KGoFunc}[i%2], Cmd: spec.BuildCmd("JN", []spec.PortDecl{{Name: "in", Join: "space"}}, o1, nil, nil, nil), Outs: []*spec.Out{{Port: "out", Pattern: "merged.out"}}},
+			&spec.Proc{Name: "D", Kind: spec.KCmd, Cmd: spec.BuildCmd("D", in, o1, nil, nil, nil)})
+		s.Conns = append(s.Conns, &spec.Conn{From: "src.out", To: "U.in"}, &spec.Conn{From: "U.out", To: "SS.in"}, &spec.Conn{From: "SS.substream", To: "JN.in"}, &spec.Conn{From: "JN.out", To: "D.in"})
+		cfg := Cfg{Buf: []int{1, 128}[i%2], Procs: 2}
+		desc := map[string]interface{}{"spec": s, "cfg": cfg}
+		preplaced := i%2 == 0
+		if preplaced {
+			desc["history"] = "the gathered file is placed by the user before the first run (its parts do not exist yet)"
+			s.Sources["merged.out"] = "a gathered file the user brought along\n"
+		} else {
+			desc["history"] = "complete run, one part deleted, run again"
+			r0 := execSpec(c, root, s, cfg, nil, false, 0)
+			if r0.Hang != "" || r0.Exit != 0 || !r0.Returned {
+				if r0.Hang != "" && !strings.HasPrefix(r0.Hang, "deadlock") {
+					c.Inconclusive(r0.Hang)
+					return
+				}
+				c.Violation("exit-nonzero", fmt.Sprintf("first run: exit %d %s: %s", r0.Exit, r0.Hang, tail(r0.Output(), 400)), desc)
+				return
+			}
+			os.Remove(filepath.Join(r0.Wd, "parts/j1.txt.U.out"))
+			os.Remove(filepath.Join(r0.Wd, "parts/j1.txt.U.out.audit.json"))
+		}
+		wd := filepath.Join(root, "wd")
+		if preplaced {
+			cs := &run.Case{Root: root, Spec: s}
+			cs.Prepare()
+		}
+		before := run.Snap(wd)
+		res := execSpec(c, root, s, cfg, nil, true, 1)
+		if res.Hang != "" && !strings.HasPrefix(res.Hang, "deadlock") {
+			c.Inconclusive(res.Hang)
+			return
+		}
+		var ps []mon.Problem
+		if res.Hang != "" || res.Exit != 0 || !res.Returned {
+			ps = append(ps, mon.Problem{Sig: "exit-nonzero", Msg: fmt.Sprintf("exit %d %s: %s", res.Exit, res.Hang, tail(res.Output(), 400))})
+		}
+		nU := 0
+		for _, e := range res.Trace {
+			if e.Ev == "start" && e.ID == "JN" {
+				ps = append(ps, mon.Problem{Sig: "skipped-task-executed", Msg: "the gathering task was executed although merged.out existed"})
+			}
+			if e.Ev == "start" && e.ID == "U" {
+				nU++
+			}
+		}
+		ps = append(ps, statChanges(before, run.Snap(wd), []string{"merged.out"})...)
+		if len(ps) > 0 {
+			for _, sig := range sigSet(ps) {
+				desc["problems"] = mon.Summarize(ps, 10)
+				c.Violation(sig, fmt.Sprintf("%v: %s", desc["history"], strings.Join(mon.Summarize(ps, 4), "\n  ")), desc)
+			}
+			return
+		}
+		if nU == 0 {
+			c.Inconclusive("joined-existing: no part was computed in the judged run")
+			return
+		}
+		c.Count("outputs_stat_compared", 1)
+		c.Nontrivial(fmt.Sprintf("joinedexisting|%v|%d", preplaced, i))
 	})
 }
